@@ -663,3 +663,61 @@ def closure_programs(rng, n):
         ]
         out.append(rng.choice(shapes))
     return out
+
+
+# ---- every compound form in every child slot of every parent, the parent in statement and in
+# ---- expression position ("the result does not depend on where the form sits") -------------
+def position_programs():
+    out = []
+    X = XQ                                   # a local bound to 15 by every context
+
+    def value_children(k):
+        return [
+            ("if", IF(L(X), T(K(k)), T(K(k + 1)))),
+            ("let", LET(V, T(K(k)), VEC(L(V), L(X)))),
+            ("do", DO(T(K(k)), L(X))),
+            ("try", TRY(T(K(k)), (1, E, K(0)), None)),
+            ("loop", LOOP([(V, T(K(k)))], VEC(L(V)))),
+            ("call", INV(FN([], T(K(k))))),
+        ]
+
+    def fn_children(k):
+        f1 = FN([A_B], VEC(K(k), L(A_B)))
+        f2 = FN([A_B], VEC(K(k + 1), L(A_B)))
+        return [
+            ("if", IF(L(X), f1, f2)),
+            ("let", LET(F, f1, L(F))),
+            ("do", DO(T(K(k)), f1)),
+            ("try", TRY(f1, None, T(K(k)))),
+        ]
+
+    parents = []
+    for cn, ch in value_children(20):
+        parents += [
+            ("let-init/" + cn, LET(A_B, ch, T(L(A_B)))),
+            ("loop-init/" + cn, LOOP([(I, ch)], T(L(I)))),
+            ("invoke-arg/" + cn, INV(FN([N_], T(L(N_))), ch)),
+            ("prim-arg/" + cn, T(ch)),
+            ("if-test/" + cn, IF(ch, T(K(1)), T(K(2)))),
+            ("throw-arg/" + cn, TRY(THROW(P("exc1", ch)), (1, E, T(K(5))), None)),
+            ("vec-elem/" + cn, VEC(ch, T(K(6)))),
+            ("recur-arg/" + cn, LOOP([(I, K(0)), (ACC, K(0))],
+                                     IF(P("lt", L(I), K(1)), RECUR(P("inc", L(I)), ch), T(L(ACC))))),
+            ("def-init/" + cn, DO(DEF(0, ch), T(GL(0)))),
+            ("try-body/" + cn, TRY(ch, None, T(K(9)))),
+            ("catch-body/" + cn, TRY(THROW(P("exc1", K(0))), (1, E, ch), None)),
+        ]
+    for cn, ch in fn_children(30):
+        parents += [("invoke-callee/" + cn, INV(ch, K(7))),
+                    ("invoke-callee-traced/" + cn, T(INV(ch, T(K(8)))))]
+    contexts = [
+        ("expr", lambda p: LET(X, K(15), VEC(p))),
+        ("let-do-stmt", lambda p: LET(X, K(15), DO(p, K(3)))),
+        ("fn-body-stmt", lambda p: INV(FN([X], DO(p, L(X))), K(15))),
+        ("finally", lambda p: LET(X, K(15), TRY(K(1), None, p))),
+        ("if-branch-stmt", lambda p: LET(X, K(15), DO(IF(L(X), p, K(4)), K(5)))),
+    ]
+    for pn, p in parents:
+        for cxn, cx in contexts:
+            out.append((f"position:{cxn}:{pn}", cx(p)))
+    return out
